@@ -1,6 +1,7 @@
 package replication
 
 import (
+	"bytes"
 	"fmt"
 	"sync"
 
@@ -145,6 +146,16 @@ type WALBatchApplier struct {
 	// Sequence number gap detection
 	expectedNextSeq uint64
 
+	// The newest sequence number of which entries were applied, and the payloads
+	// of those entries in the order applied. All entries written by one
+	// wal.AppendBatch (a transaction) share one sequence number and the primary
+	// may deliver them more than once or spread over several responses, so the
+	// number alone does not tell whether an entry of it was applied already.
+	// Numbers below groupSeq are applied completely. With nothing recorded,
+	// groupSeq is the number that comes next.
+	groupSeq     uint64
+	groupApplied [][]byte
+
 	// Lock to protect sequence numbers
 	mu sync.Mutex
 }
@@ -160,11 +171,20 @@ func NewWALBatchApplier(startSeq uint64) *WALBatchApplier {
 		maxAppliedSeq:   startSeq,
 		lastAckSeq:      startSeq,
 		expectedNextSeq: nextSeq,
+		groupSeq:        nextSeq,
 	}
 }
 
 // ApplyEntries applies a batch of WAL entries with proper ordering and gap detection
 // Returns the highest applied sequence, a flag indicating if a gap was detected, and any error
+//
+// The primary numbers its log 1, 2, 3, ... and gives all entries written by one
+// wal.AppendBatch (a transaction) the same number, so inside a delivery every
+// entry carries the number of its predecessor or that number plus one. A delivery
+// may repeat entries that were applied before (the primary polls from the last
+// acknowledged number and pushes new entries as well); those are skipped. A
+// delivery that starts beyond the next expected number, or has a hole, is a gap
+// and nothing of it is applied.
 func (a *WALBatchApplier) ApplyEntries(entries []*replication_proto.WALEntry, applyFn func(*wal.Entry) error) (uint64, bool, error) {
 	a.mu.Lock()
 	defer a.mu.Unlock()
@@ -173,36 +193,65 @@ func (a *WALBatchApplier) ApplyEntries(entries []*replication_proto.WALEntry, ap
 		return a.maxAppliedSeq, false, nil
 	}
 
-	// Check for sequence gaps
-	hasGap := false
+	// Check for sequence gaps before anything is applied
 	firstSeq := entries[0].SequenceNumber
 
 	fmt.Printf("Batch applier: checking for sequence gap. Expected: %d, Got: %d\n",
 		a.expectedNextSeq, firstSeq)
 
-	if firstSeq != a.expectedNextSeq {
+	if firstSeq > a.expectedNextSeq {
 		// We have a gap
-		hasGap = true
-		return a.maxAppliedSeq, hasGap, fmt.Errorf("sequence gap detected: expected %d, got %d",
+		return a.maxAppliedSeq, true, fmt.Errorf("sequence gap detected: expected %d, got %d",
 			a.expectedNextSeq, firstSeq)
 	}
 
-	// Process entries in order
-	var lastAppliedSeq uint64
-	for i, protoEntry := range entries {
-		// Verify entries are in sequence
-		if i > 0 && protoEntry.SequenceNumber != entries[i-1].SequenceNumber+1 {
-			// Gap within the batch
-			hasGap = true
-			return a.maxAppliedSeq, hasGap, fmt.Errorf("sequence gap within batch: %d -> %d",
-				entries[i-1].SequenceNumber, protoEntry.SequenceNumber)
+	for i := 1; i < len(entries); i++ {
+		prev, cur := entries[i-1].SequenceNumber, entries[i].SequenceNumber
+		if cur != prev && cur != prev+1 {
+			// Gap within the batch (or entries out of order)
+			return a.maxAppliedSeq, true, fmt.Errorf("sequence gap within batch: %d -> %d", prev, cur)
 		}
+	}
+
+	// Skip what was applied by earlier deliveries: everything below groupSeq ...
+	next := 0
+	for next < len(entries) && entries[next].SequenceNumber < a.groupSeq {
+		next++
+	}
+
+	// ... and, if the delivery repeats the entries already applied for groupSeq,
+	// those as well. Entries of groupSeq that do not repeat them continue it.
+	run := next
+	for run < len(entries) && entries[run].SequenceNumber == a.groupSeq {
+		run++
+	}
+	if n := min(run-next, len(a.groupApplied)); n > 0 {
+		repeated := true
+		for k := 0; k < n; k++ {
+			if !bytes.Equal(entries[next+k].Payload, a.groupApplied[k]) {
+				repeated = false
+				break
+			}
+		}
+		if repeated {
+			next += n
+		}
+	}
+
+	if next > 0 {
+		fmt.Printf("Batch applier: skipping %d already applied entries\n", next)
+	}
+
+	// Process the remaining entries in order
+	for i := next; i < len(entries); i++ {
+		protoEntry := entries[i]
 
 		// Deserialize and apply the entry
 		entry, err := DeserializeWALEntry(protoEntry.Payload)
 		if err != nil {
 			fmt.Printf("Failed to deserialize entry %d: %v\n",
 				protoEntry.SequenceNumber, err)
+			a.advanceTo(protoEntry.SequenceNumber - 1)
 			return a.maxAppliedSeq, false, fmt.Errorf("failed to deserialize entry %d: %w",
 				protoEntry.SequenceNumber, err)
 		}
@@ -217,21 +266,36 @@ func (a *WALBatchApplier) ApplyEntries(entries []*replication_proto.WALEntry, ap
 		if err := applyFn(entry); err != nil {
 			fmt.Printf("Failed to apply entry %d: %v\n",
 				protoEntry.SequenceNumber, err)
+			// The sequence number of this entry is not applied completely
+			a.advanceTo(protoEntry.SequenceNumber - 1)
 			return a.maxAppliedSeq, false, fmt.Errorf("failed to apply entry %d: %w",
 				protoEntry.SequenceNumber, err)
 		}
 
-		lastAppliedSeq = protoEntry.SequenceNumber
+		// Remember what was applied for the newest sequence number
+		if protoEntry.SequenceNumber != a.groupSeq {
+			a.groupSeq = protoEntry.SequenceNumber
+			a.groupApplied = nil
+		}
+		a.groupApplied = append(a.groupApplied, protoEntry.Payload)
 	}
 
 	// Update tracking
-	a.maxAppliedSeq = lastAppliedSeq
-	a.expectedNextSeq = lastAppliedSeq + 1
+	a.advanceTo(entries[len(entries)-1].SequenceNumber)
 
 	fmt.Printf("Batch successfully applied. Last sequence: %d, Next expected: %d\n",
 		a.maxAppliedSeq, a.expectedNextSeq)
 
 	return a.maxAppliedSeq, false, nil
+}
+
+// advanceTo records that all entries up to seq are applied; the applied sequence
+// never moves backwards
+func (a *WALBatchApplier) advanceTo(seq uint64) {
+	if seq > a.maxAppliedSeq {
+		a.maxAppliedSeq = seq
+		a.expectedNextSeq = seq + 1
+	}
 }
 
 // AcknowledgeUpTo marks sequences as acknowledged
@@ -286,4 +350,7 @@ func (a *WALBatchApplier) Reset(seq uint64) {
 	} else {
 		a.expectedNextSeq = seq + 1
 	}
+
+	a.groupSeq = a.expectedNextSeq
+	a.groupApplied = nil
 }
